@@ -21,8 +21,11 @@ func c05ProbeRules(c *core.Ctx) {
 	c05Rules5(c)
 	c05ParallelIndex(c)
 	c05ScalarField(c)
+	c05NilZero(c)
+	c05PropRead(c)
 	if root := c.P.Pkg(""); root != nil {
 		c05GoDecode(c, root)
+		c05AlertID(c, root)
 		c05Cron(c, root, "C05.cronprobe", "C05.cronend")
 	}
 	c.Rule("C05.alerttmpl", "A1: F107: AlertNode.event does not return the error of the message/details templates (their execution depends on the fields of the point): on the paths where rendering failed it counts the error and returns an event with a nil error")
